@@ -159,6 +159,7 @@ class PollScript(object):
         try:
             s.yield_point("uyield")
             if e == "raise":
+                s.ev("pollraise", i)
                 raise EXC["E2"]("poll#%d" % i)
             if e == "yield":
                 for d in descriptors:
